@@ -65,7 +65,7 @@ def known_match(known, prop, signature):
 REQUIRED_PROBES = {
     "C16": ["nary_pattern_evaluated", "axle_constructed"],
     "C17": ["last_handle_dropped"],
-    "C15": ["set_rejected", "set_rejected_while_following", "set_time_after_clock_moved", "update_while_following", "adapter_get"],
+    "C15": ["set_rejected", "set_rejected_while_following", "set_time_after_clock_moved", "update_while_following", "adapter_get", "motion_profile_adapter_get"],
     "C02": ["two_different_errors", "nary_leading_absent", "equivalence_checked"],
     "C08": ["both_sides_present", "one_sided", "axle_partial_presence", "diff_equal_all_present", "diff_waits_for_data",
             "teeth_ratio_observed"],
@@ -294,7 +294,7 @@ def bisect_death(prop, tier, seed, binary, first):
     total = int(os.environ.get("VERIF_RUNS") or 0)
     if not total:
         # ask the binary for its default run count through a tiny batch
-        total = {"quick": 100000, "thorough": 3000000}[tier]
+        total = {"quick": 100000, "thorough": 25000000}[tier]
 
     def batch(lo, hi):
         out = os.path.join(REPLAYS, "tmp", "bisect-%d.json" % os.getpid())
